@@ -757,6 +757,9 @@ class PaneConverter(Converter[PaneBaseT]):
         Dispatches to [`try_convert_tuple`][pane.classes.PaneConverter.try_convert_tuple]
         and [`try_convert_struct`][pane.classes.PaneConverter.try_convert_struct]
         """
+        if isinstance(val, self.cls):
+            return val  # already an instance (`try_convert` should be idempotent, see `UnionConverter.into_data`)
+
         # based on type, try to delegate to try_convert_tuple or try_convert_struct
         if data_is_sequence(val):
             val = t.cast(t.Sequence[t.Any], val)
@@ -780,6 +783,9 @@ class PaneConverter(Converter[PaneBaseT]):
         Dispatches to [`collect_errors_tuple`][pane.classes.PaneConverter.collect_errors_tuple]
         and [`collect_errors_struct`][pane.classes.PaneConverter.collect_errors_struct]
         """
+        if isinstance(val, self.cls):
+            return None  # already an instance
+
         # based on type, try to delegate to collect_errors_tuple or collect_errors_struct
         if data_is_sequence(val):
             if 'tuple' not in self.opts.in_format:
